@@ -72,7 +72,10 @@ def layout(lid):
             if not st or not st["size"]:
                 raise common.MachineryError("layout %s: struct %s not found in %s" % (lid, l[2], DOCS[l[1]]))
             tv = structs.get("timeval") or structs.get("__timeval")
-            _cache[lid] = {"id": lid, "size": st["size"], "fields": st["fields"], "consts": consts, "file": l[3], "kind": l[4], "timeval": tv}
+            fields = dict(st["fields"])
+            if lid == "linux_x86_utmpx" and "ut_addr_v6" not in fields:
+                fields["ut_addr_v6"] = (348, 16)      # the platform document stops at ut_tv; struct utmp (x86): ut_tv at 340 (2 x int32), then int32_t ut_addr_v6[4]
+            _cache[lid] = {"id": lid, "size": st["size"], "fields": fields, "consts": consts, "file": l[3], "kind": l[4], "timeval": tv}
             return _cache[lid]
     raise KeyError(lid)
 
